@@ -27,10 +27,178 @@ def DecCallOK : KeyCall → Prop
   | .sharedBox _ _ _ _ => False
   | .sign _ _ => False
 
+theorem Calls.payloadKeyBox_ok {v : Version} {i : Nat} {n : Bytes}
+    (h : Nonce.payloadKeyBox v i = .ok n) : PayloadKeyNonce n := by
+  unfold Nonce.payloadKeyBox at h
+  split at h
+  · cases h; exact Or.inl rfl
+  · split at h
+    · cases h; exact Or.inr ⟨i, rfl⟩
+    · cases h
+
+/-- every call of a log is admissible -/
+def Calls.AllOK (l : List KeyCall) : Prop := ∀ c ∈ l, DecCallOK c
+
+theorem Calls.AllOK.nil : Calls.AllOK [] := fun _ h => absurd h List.not_mem_nil
+
+theorem Calls.AllOK.cons {c : KeyCall} {l : List KeyCall} (hc : DecCallOK c) (hl : Calls.AllOK l) : Calls.AllOK (c :: l) := by
+  intro x hx
+  rcases List.mem_cons.mp hx with rfl | hx
+  · exact hc
+  · exact hl x hx
+
+theorem Calls.AllOK.append {l l' : List KeyCall} (h : Calls.AllOK l) (h' : Calls.AllOK l') : Calls.AllOK (l ++ l') := by
+  intro x hx
+  rcases List.mem_append.mp hx with hx | hx
+  · exact h x hx
+  · exact h' x hx
+
+theorem Calls.tryVisible_calls (P : Prims) (kr : Keyring) (h : EncHeader) (eph : Bytes) :
+    Calls.AllOK (Decrypt.tryVisible P kr h eph).1 := by
+  unfold Decrypt.tryVisible
+  simp only
+  split
+  · exact Calls.AllOK.nil
+  · split
+    · exact Calls.AllOK.nil
+    · split
+      · exact Calls.AllOK.nil
+      · split
+        · exact Calls.AllOK.nil
+        · rename_i nonce hn
+          have hok : ∀ a b d, Calls.AllOK [KeyCall.unbox a b nonce d] :=
+            fun _ _ _ => Calls.AllOK.cons (Calls.payloadKeyBox_ok hn) Calls.AllOK.nil
+          split
+          · exact hok _ _ _
+          · split <;> exact hok _ _ _
+
+theorem Calls.tryHiddenOne_calls (P : Prims) (v : Version) (sk eph : Bytes) (l : List (RecvKeys × Nat)) :
+    Calls.AllOK (Decrypt.tryHiddenOne P v sk eph l).1 := by
+  induction l with
+  | nil => exact Calls.AllOK.nil
+  | cons p rest ih =>
+    obtain ⟨r, i⟩ := p
+    rw [Decrypt.tryHiddenOne]
+    split
+    · split
+      · exact Calls.AllOK.nil
+      · rename_i nonce hn
+        have hc : DecCallOK (KeyCall.sharedUnbox sk eph nonce r.box) := Calls.payloadKeyBox_ok hn
+        simp only
+        split
+        · exact Calls.AllOK.cons hc ih
+        · split <;> exact Calls.AllOK.cons hc Calls.AllOK.nil
+    · exact ih
+
+theorem Calls.tryHidden_calls (P : Prims) (h : EncHeader) (eph : Bytes) (sks : List Bytes) :
+    Calls.AllOK (Decrypt.tryHidden P h eph sks).1 := by
+  induction sks with
+  | nil => exact Calls.AllOK.nil
+  | cons sk sks ih =>
+    rw [Decrypt.tryHidden]
+    have h1 := Calls.tryHiddenOne_calls P h.version sk eph h.receivers.zipIdx
+    have hl : Calls.AllOK (KeyCall.precompute sk eph :: (Decrypt.tryHiddenOne P h.version sk eph h.receivers.zipIdx).1) :=
+      Calls.AllOK.cons True.intro h1
+    simp only
+    split
+    · exact hl
+    · exact hl
+    · exact Calls.AllOK.append hl ih
+
+theorem Calls.macKeyReceiver_calls (P : Prims) (v : Version) (index : Nat) (secret pub ePub hh : Bytes) :
+    Calls.AllOK (Decrypt.macKeyReceiver P v index secret pub ePub hh).1 := by
+  unfold Decrypt.macKeyReceiver
+  split
+  · exact Calls.AllOK.cons rfl Calls.AllOK.nil
+  · split
+    · exact Calls.AllOK.cons rfl (Calls.AllOK.cons rfl Calls.AllOK.nil)
+    · exact Calls.AllOK.nil
+
+theorem Calls.processHeader_calls (P : Prims) (valid : Validator) (kr : Keyring) (hh : Bytes) (h : EncHeader) :
+    Calls.AllOK (Decrypt.processHeader P valid kr hh h).1 := by
+  unfold Decrypt.processHeader
+  split
+  · exact Calls.AllOK.nil
+  split
+  · exact Calls.AllOK.nil
+  rename_i eph _
+  simp only
+  have h1 := Calls.tryVisible_calls P kr h eph
+  have h2 := Calls.tryHidden_calls P h eph kr.getAllBoxSecretKeys
+  split
+  · exact h1
+  rename_i vis hvis
+  have h3 := fun pos sk senderPub => Calls.macKeyReceiver_calls P h.version pos sk senderPub eph hh
+  cases vis with
+  | some r =>
+    have h12 := Calls.AllOK.append h1 Calls.AllOK.nil
+    simp only
+    split
+    · exact h12
+    · split
+      · exact h12
+      · split
+        · exact h12
+        · split
+          · exact Calls.AllOK.append h12 (h3 _ _ _)
+          · exact Calls.AllOK.append h12 (h3 _ _ _)
+  | none =>
+    have h12 := Calls.AllOK.append h1 h2
+    simp only
+    split
+    · exact h12
+    · exact h12
+    · split
+      · exact h12
+      · split
+        · exact h12
+        · split
+          · exact h12
+          · split
+            · exact Calls.AllOK.append h12 (h3 _ _ _)
+            · exact Calls.AllOK.append h12 (h3 _ _ _)
+
 theorem dec_calls_ok (P : Prims) (valid : Validator) (kr : Keyring) (hr : HeaderRead EncHeader)
     (ps : PStream EncBlock) :
     ∀ c ∈ (Decrypt.openStream P valid kr hr ps).calls, DecCallOK c := by
-  sorry
+  show Calls.AllOK _
+  unfold Decrypt.openStream
+  split
+  · exact Calls.AllOK.nil
+  · exact Calls.AllOK.nil
+  · rename_i hb h
+    have hp := Calls.processHeader_calls P valid kr (P.hash hb) h
+    split
+    · rename_i log e heq
+      rw [heq] at hp; exact hp
+    · rename_i log st heq
+      rw [heq] at hp; exact hp
+
+theorem Calls.sc_processHeader_calls (P : Prims) (kr : Keyring) (res : Signcrypt.Resolver) (hh : Bytes) (h : EncHeader) :
+    ∀ c ∈ (Signcrypt.processHeader P kr res hh h).1,
+      ∃ sk pk, c = .box sk pk Nonce.derivedSharedKey (zeros 32) := by
+  have hnil : ∀ c ∈ ([] : List KeyCall), ∃ sk pk, c = .box sk pk Nonce.derivedSharedKey (zeros 32) :=
+    fun _ h => absurd h List.not_mem_nil
+  have hmap : ∀ (sks : List Bytes) (eph : Bytes),
+      ∀ c ∈ sks.map (fun sk => KeyCall.box sk eph Nonce.derivedSharedKey (zeros 32)),
+        ∃ sk pk, c = .box sk pk Nonce.derivedSharedKey (zeros 32) := by
+    intro sks eph c hc
+    obtain ⟨sk, _, rfl⟩ := List.mem_map.mp hc
+    exact ⟨sk, eph, rfl⟩
+  unfold Signcrypt.processHeader
+  split
+  · exact hnil
+  split
+  · exact hnil
+  simp only
+  split
+  · exact hmap _ _
+  · exact hmap _ _
+  · split
+    · exact hmap _ _
+    · split
+      · exact hmap _ _
+      · split <;> exact hmap _ _
 
 /-- a signcryption opener uses its box secret keys only to box 32 zero bytes
     under the fixed derived-key nonce -/
@@ -38,12 +206,35 @@ theorem sc_calls_ok (P : Prims) (kr : Keyring) (res : Signcrypt.Resolver) (hr : 
     (ps : PStream SigncryptBlock) :
     ∀ c ∈ (Signcrypt.openStream P kr res hr ps).calls,
       ∃ sk pk, c = .box sk pk Nonce.derivedSharedKey (zeros 32) := by
-  sorry
+  unfold Signcrypt.openStream
+  split
+  · exact fun _ h => absurd h List.not_mem_nil
+  · exact fun _ h => absurd h List.not_mem_nil
+  · rename_i hb h
+    have hp := Calls.sc_processHeader_calls P kr res (P.hash hb) h
+    split
+    · rename_i log e heq
+      rw [heq] at hp; exact hp
+    · rename_i log st heq
+      rw [heq] at hp; exact hp
 
 /-- a sender's long-term box key only boxes 32 zero bytes -/
 theorem sender_calls_ok (v : Version) (sender : Option Bytes) (hh : Bytes) (rs : List Encrypt.Recipient) (i : Nat) :
     ∀ c ∈ Encrypt.senderCalls v sender hh rs i, ∃ sk pk n, c = .box sk pk n (zeros 32) := by
-  sorry
+  induction rs generalizing i with
+  | nil => exact fun _ h => absurd h List.not_mem_nil
+  | cons r rs ih =>
+    intro c hc
+    unfold Encrypt.senderCalls at hc
+    rcases List.mem_append.mp hc with hc | hc
+    · cases sender with
+      | none => exact absurd hc List.not_mem_nil
+      | some s =>
+        simp only at hc
+        split at hc
+        · exact ⟨_, _, _, List.mem_singleton.mp hc⟩
+        · exact ⟨_, _, _, List.mem_singleton.mp hc⟩
+    · exact ih _ c hc
 
 /-- attached signing: every signed input is the attached domain string followed
     by exactly 64 bytes of hash (over the header hash — which covers the fresh
@@ -52,7 +243,31 @@ theorem attached_sign_inputs (P : Prims) (hP : P.Lawful) (v : Version) (signer h
     (plan : List (Bytes × Bool)) (i : Nat) :
     ∀ c ∈ Sign.signCalls P v signer hh plan i,
       ∃ d, d.length = 64 ∧ c = .sign signer (Gen.c_sp_signatureAttachedString ++ d) := by
-  sorry
+  induction plan generalizing i with
+  | nil => exact fun _ h => absurd h List.not_mem_nil
+  | cons p rest ih =>
+    obtain ⟨ch, f⟩ := p
+    intro c hc
+    rw [Sign.signCalls] at hc
+    rcases List.mem_append.mp hc with hc | hc
+    · unfold attachedSignatureInput at hc
+      split at hc
+      · rename_i inp heq
+        split at heq
+        · cases heq
+          exact ⟨_, hP.hash_len _, List.mem_singleton.mp hc⟩
+        · split at heq
+          · cases heq
+            exact ⟨_, hP.hash_len _, List.mem_singleton.mp hc⟩
+          · cases heq
+      · exact absurd hc List.not_mem_nil
+    · exact ih _ c hc
+
+theorem Calls.chunkSigncryption_length (hh : Bytes) (hl : hh.length = 64) (f : Bool) (i : Nat) :
+    (Nonce.chunkSigncryption hh f i).length = 24 := by
+  unfold Nonce.chunkSigncryption Nonce.hashFlagCounter
+  simp only [List.length_append, List.length_take, List.length_cons, List.length_nil, be64_length, hl]
+  omega
 
 /-- signcryption: every signed input is the signcryption domain string followed
     by exactly 64 + 24 + 1 + 64 bytes -/
@@ -61,21 +276,79 @@ theorem signcrypt_sign_inputs (P : Prims) (hP : P.Lawful) (sender : Option Bytes
     ∀ c ∈ Signcrypt.signCalls P sender hh plan i,
       ∃ s d, sender = some s ∧ d.length = 64 + 24 + 1 + 64 ∧
         c = .sign s (Gen.c_sp_signatureEncryptedString ++ d) := by
-  sorry
+  induction plan generalizing i with
+  | nil => exact fun _ h => absurd h List.not_mem_nil
+  | cons p rest ih =>
+    obtain ⟨ch, f⟩ := p
+    intro c hc
+    unfold Signcrypt.signCalls at hc
+    rcases List.mem_append.mp hc with hc | hc
+    · cases sender with
+      | none => exact absurd hc List.not_mem_nil
+      | some s =>
+        have hc' := List.mem_singleton.mp hc
+        refine ⟨s, hh ++ Nonce.chunkSigncryption hh f i ++ finalByte f ++ P.hash ch, rfl, ?_, ?_⟩
+        · simp only [List.length_append, hhl, Calls.chunkSigncryption_length hh hhl, finalByte_length,
+            hP.hash_len]
+        · rw [hc']
+          unfold signcryptionSignatureInput
+          simp only [List.append_assoc]
+    · exact ih _ c hc
 
 /-- detached signing: domain string followed by exactly 64 bytes -/
 theorem detached_sign_input (P : Prims) (hP : P.Lawful) (hh msg : Bytes) :
-    ∃ d, d.length = 64 ∧ detachedSignatureInput P hh msg = Gen.c_sp_signatureDetachedString ++ d := by
-  sorry
+    ∃ d, d.length = 64 ∧ detachedSignatureInput P hh msg = Gen.c_sp_signatureDetachedString ++ d :=
+  ⟨_, hP.hash_len _, rfl⟩
 
 /-! ## C18 -/
+
+theorem Calls.readFull_zero (src : Rand.Source) : Rand.readFull 0 src = some ([], src) := by
+  cases src <;> rfl
 
 /-- a full read returns exactly `n` bytes and leaves a suffix of the source -/
 theorem readFull_spec (n : Nat) (src : Rand.Source) (b : Bytes) (rest : Rand.Source)
     (h : Rand.readFull n src = some (b, rest)) :
     b.length = n ∧ ∃ k, k ≤ src.length ∧ rest = src.drop k ∧
       b = (((src.take k).map (·.data)).flatten).take n := by
-  sorry
+  induction src generalizing n b with
+  | nil =>
+    cases n with
+    | zero =>
+      rw [Calls.readFull_zero] at h
+      cases h
+      exact ⟨rfl, 0, Nat.le_refl _, rfl, rfl⟩
+    | succ n => simp [Rand.readFull] at h
+  | cons r src ih =>
+    cases n with
+    | zero =>
+      rw [Calls.readFull_zero] at h
+      cases h
+      exact ⟨rfl, 0, Nat.zero_le _, rfl, rfl⟩
+    | succ n =>
+      rw [Rand.readFull] at h
+      try simp only at h
+      split at h
+      · rename_i hg
+        cases h
+        refine ⟨hg, 1, by simp, rfl, by simp⟩
+      · rename_i hg
+        split at h
+        · cases h
+        · split at h
+          · cases h
+          · split at h
+            · cases h
+            · rename_i more rest' hrec
+              cases h
+              have hlt : r.data.length < n + 1 := by
+                rw [List.length_take] at hg
+                omega
+              have hgot : r.data.take (n + 1) = r.data := List.take_of_length_le (by omega)
+              rw [hgot] at hrec ⊢
+              obtain ⟨hl, k, hk, hr, hb⟩ := ih _ _ hrec
+              refine ⟨by rw [List.length_append, hl]; omega, k + 1, by simp; omega, by simpa using hr, ?_⟩
+              simp only [List.take_succ_cons, List.map_cons, List.flatten_cons]
+              rw [List.take_append, List.take_of_length_le (by omega : r.data.length ≤ n + 1), ← hb]
 
 /-- **fail closed**: if a read reports an error before `n` bytes have been
     delivered (alone, or together with a short slice), the full read fails -/
@@ -83,12 +356,51 @@ theorem readFull_fail_closed (n : Nat) (src : Rand.Source) (k : Nat) (hk : k < s
     (herr : (src[k]'hk).err = true)
     (hshort : ((src.take (k + 1)).map (·.data.length)).sum < n) :
     Rand.readFull n src = none := by
-  sorry
+  induction src generalizing n k with
+  | nil => simp at hk
+  | cons r src ih =>
+    cases n with
+    | zero => simp at hshort
+    | succ n =>
+      simp only [List.take_succ_cons, List.map_cons, List.sum_cons] at hshort
+      rw [Rand.readFull]
+      try simp only
+      have hgot : r.data.take (n + 1) = r.data := List.take_of_length_le (by omega)
+      rw [hgot]
+      rw [if_neg (by omega)]
+      cases k with
+      | zero =>
+        simp only [List.getElem_cons_zero] at herr
+        rw [if_pos herr]
+      | succ k =>
+        simp only [List.getElem_cons_succ] at herr
+        rw [ih (n + 1 - r.data.length) k (by simpa using hk) herr (by omega)]
+        split
+        · rfl
+        · split <;> rfl
 
 /-- a source that ends before `n` bytes: the full read fails -/
 theorem readFull_short (n : Nat) (src : Rand.Source)
     (hshort : (src.map (·.data.length)).sum < n) : Rand.readFull n src = none := by
-  sorry
+  induction src generalizing n with
+  | nil =>
+    cases n with
+    | zero => simp at hshort
+    | succ n => rfl
+  | cons r src ih =>
+    cases n with
+    | zero => simp at hshort
+    | succ n =>
+      simp only [List.map_cons, List.sum_cons] at hshort
+      rw [Rand.readFull]
+      try simp only
+      have hgot : r.data.take (n + 1) = r.data := List.take_of_length_le (by omega)
+      rw [hgot]
+      rw [if_neg (by omega)]
+      rw [ih (n + 1 - r.data.length) (by omega)]
+      split
+      · rfl
+      · split <;> rfl
 
 /-- `Seal`'s secrets are exactly what the source delivered, in the order
     shuffle draws → ephemeral key (if drawn from the source) → payload key;
@@ -105,14 +417,61 @@ theorem sealRand_draws (P : Prims) (bs : Nat) (v : Version) (sender : Option Byt
         | .fails => False) ∧
       Rand.readFull 32 src2 = some (pk, rest) ∧
       Encrypt.sealWith P bs v sender (Rand.shuffle js rs) ephSec pk pt = .ok m := by
-  sorry
+  unfold Encrypt.sealRand at h
+  split at h
+  · cases h
+  split at h
+  · cases h
+  split at h
+  · cases h
+  rename_i js src1 hsd
+  cases eph with
+  | given s =>
+    simp only at h
+    split at h
+    · cases h
+    rename_i pk src3 hpk
+    split at h
+    · cases h
+    rename_i m' hm
+    cases h
+    exact ⟨js, src1, s, src1, pk, hsd, ⟨rfl, rfl⟩, hpk, hm⟩
+  | fails =>
+    simp only at h
+    cases h
+  | fromRand =>
+    simp only at h
+    cases hr : Rand.readFull 32 src1 with
+    | none => rw [hr] at h; cases h
+    | some p =>
+      obtain ⟨ephSec, src2⟩ := p
+      rw [hr] at h
+      simp only at h
+      split at h
+      · cases h
+      rename_i pk src3 hpk
+      split at h
+      · cases h
+      rename_i m' hm
+      cases h
+      exact ⟨js, src1, ephSec, src2, pk, hsd, hr, hpk, hm⟩
 
 /-- signing: the header nonce is exactly the 16 bytes of the first full read -/
 theorem attachedRand_draws (P : Prims) (bs : Nat) (v : Version) (signer : Bytes) (src : Rand.Source)
     (msg m : Bytes) (rest : Rand.Source)
     (h : Sign.attachedRand P bs v signer src msg = .ok (m, rest)) :
     ∃ n, Rand.readFull Sign.sigNonceLen src = some (n, rest) ∧ Sign.attachedWith P bs v signer n msg = .ok m := by
-  sorry
+  unfold Sign.attachedRand at h
+  split at h
+  · cases h
+  split at h
+  · cases h
+  rename_i n src' hr
+  split at h
+  · cases h
+  rename_i m' hm
+  cases h
+  exact ⟨n, hr, hm⟩
 
 /-- fail closed, end to end: if the payload-key read fails, `Seal` returns an
     error (nothing is emitted: the model returns no bytes at all) -/
@@ -121,38 +480,58 @@ theorem sealRand_fail_closed (P : Prims) (bs : Nat) (v : Version) (sender : Opti
     (hsingle : rs.length = 1)
     (hfail : Rand.readFull 32 src = none) :
     ∃ e, Encrypt.sealRand P bs v sender rs (.given s) src pt = .error e := by
-  sorry
+  unfold Encrypt.sealRand
+  split
+  · exact ⟨_, rfl⟩
+  split
+  · exact ⟨_, rfl⟩
+  rw [hsingle]
+  simp only [Nat.sub_self, Encrypt.shuffleDraws, hfail]
+  exact ⟨_, rfl⟩
 
 /-- within one message no two chunks share a nonce (the key is the same) -/
 theorem chunk_nonces_distinct (i j : Nat) (hi : i < 2 ^ 64) (hj : j < 2 ^ 64) (h : i ≠ j) :
-    Nonce.chunkSecretBox i ≠ Nonce.chunkSecretBox j := by
-  sorry
+    Nonce.chunkSecretBox i ≠ Nonce.chunkSecretBox j :=
+  fun e => h (chunkSecretBox_inj i j hi hj e)
 
 theorem signcrypt_nonces_distinct (hh : Bytes) (hl : hh.length = 64) (f f' : Bool) (i j : Nat)
     (hi : i < 2 ^ 64) (hj : j < 2 ^ 64) (h : (f, i) ≠ (f', j)) :
     Nonce.chunkSigncryption hh f i ≠ Nonce.chunkSigncryption hh f' j := by
-  sorry
+  intro e
+  obtain ⟨rfl, rfl⟩ := chunkSigncryption_inj hh hl f f' i j hi hj e
+  exact h rfl
 
 /-- the payload key is also used for the sender secretbox: that nonce differs
     from every chunk nonce -/
 theorem sender_nonce_not_chunk (i : Nat) : Nonce.senderKeySecretBox ≠ Nonce.chunkSecretBox i := by
-  sorry
+  intro e
+  have e' := congrArg (List.take 16) e
+  unfold Nonce.senderKeySecretBox Nonce.chunkSecretBox at e'
+  rw [List.take_append_of_le_length (by decide)] at e'
+  revert e'
+  decide
 
 /-- per-recipient payload-key-box nonces (V2) are distinct per index -/
 theorem payloadKeyBoxV2_inj (i j : Nat) (hi : i < 2 ^ 64) (hj : j < 2 ^ 64)
     (h : Nonce.payloadKeyBoxV2 i = Nonce.payloadKeyBoxV2 j) : i = j := by
-  sorry
+  unfold Nonce.payloadKeyBoxV2 at h
+  exact be64_inj i j hi hj (List.append_cancel_left h)
 
 /-- MAC-key-box nonces (V2) are distinct per (ephemeral bit, index) -/
 theorem macKeyBoxV2_inj (hh : Bytes) (hl : hh.length = 64) (e e' : Bool) (i j : Nat)
     (hi : i < 2 ^ 64) (hj : j < 2 ^ 64)
-    (h : Nonce.macKeyBoxV2 hh e i = Nonce.macKeyBoxV2 hh e' j) : e = e' ∧ i = j := by
-  sorry
+    (h : Nonce.macKeyBoxV2 hh e i = Nonce.macKeyBoxV2 hh e' j) : e = e' ∧ i = j :=
+  chunkSigncryption_inj hh hl e e' i j hi hj h
 
 /-- the encoder refuses to run the chunk counter into the nonce overflow -/
 theorem block_overflow_guard (P : Prims) (v : Version) (pk hh : Bytes) (mks : List Bytes) (i : Nat)
     (c : Bytes) (f : Bool) (hi : 2 ^ 64 - 1 ≤ i) :
     Encrypt.blockStruct P v pk hh mks i c f = .error .packetOverflow := by
-  sorry
+  unfold Encrypt.blockStruct
+  have : blockNumberOK i = false := by
+    unfold blockNumberOK
+    exact decide_eq_false (by omega)
+  rw [this]
+  rfl
 
 end Saltpack.Proofs
